@@ -528,7 +528,8 @@ class WeightedAverage(WeightedDefuzzifier):
         for activated in fuzzy_output.grouped_terms().values():
             w = activated.degree
             z = activated.term.__getattribute__(membership)(w)
-            weighted_sum = weighted_sum + w * z
+            # a term that is not activated (w=0) does not contribute, even if its value is infinite
+            weighted_sum = weighted_sum + np.where(w == 0.0, 0.0, w * z)
             weights = weights + w
 
         y = (weighted_sum / weights).squeeze()  # type: ignore
@@ -590,7 +591,8 @@ class WeightedSum(WeightedDefuzzifier):
         for activated in fuzzy_output.grouped_terms().values():
             w = activated.degree
             z = activated.term.__getattribute__(membership)(w)
-            weighted_sum = weighted_sum + w * z
+            # a term that is not activated (w=0) does not contribute, even if its value is infinite
+            weighted_sum = weighted_sum + np.where(w == 0.0, 0.0, w * z)
             weights = weights + w
 
         y = weighted_sum / weights
